@@ -8,7 +8,7 @@ import frrparse as fp
 
 CLOSURE = ["Model/FrrAst.v", "Model/FrrRender.v", "Model/FrrSem.v", "Model/FrrSpec.v", "Model/FrrK8s.v", "Proofs/FrrSortP.v", "Proofs/FrrK8sP.v",
            "Proofs/FrrP.v", "Proofs/FrrListsP.v", "Proofs/FrrShapeP.v", "Proofs/FrrSemP.v", "Proofs/FrrOutP.v", "Proofs/FrrExactP.v",
-           "Proofs/FrrK8sEqP.v", "Model/FrrMgr.v", "Proofs/FrrMgrP.v"]
+           "Proofs/FrrK8sEqP.v", "Model/FrrMgr.v", "Proofs/FrrMgrP.v", "Proofs/FrrWfP.v", "Proofs/FrrAdvPermP.v", "Proofs/FrrK8sAdvP.v"]
 COQ_FILES = ["Corr/Run_FrrK8s.v", "Corr/Run_FrrMgr.v"]
 PKG = "internal/bgp/frrk8s"
 EXTRA_ROUTES = ["203.0.113.0/24", "2001:db8:ffff::/48"]
